@@ -64,6 +64,7 @@ var c15BadNames = []string{
 	"dup-method", "dup-path", "connection", "keep-alive", "transfer-encoding", "te-gzip",
 	"proxy-connection", "upgrade", "unknown-pseudo", "status-pseudo", "empty-path",
 	"header-list-too-long", "header-list-too-long-continuation",
+	"userinfo-in-authority", "userinfo-in-host-without-authority", "path-without-leading-slash",
 }
 
 // c15BigKind is the first of the two "header list larger than the server's limit"
@@ -110,6 +111,12 @@ func c15BadFields(kind int, path string) []string {
 		return cat(m, s, a, p, []string{":foo", "bar"})
 	case 14:
 		return cat(m, s, a, p, []string{":status", "200"})
+	case 18: // RFC 9113 8.3.1: no userinfo in :authority of http/https requests
+		return cat(m, s, []string{":authority", "user@dummy.tld"}, p)
+	case 19: // the same authority given only through the Host header field
+		return cat(m, s, p, []string{"host", "user@dummy.tld"})
+	case 20:
+		return cat(m, s, a, []string{":path", strings.TrimPrefix(path, "/")})
 	default:
 		return cat(m, s, a, []string{":path", ""})
 	}
@@ -583,7 +590,7 @@ func c15Run(c c15Case, r *vp.Rec) error {
 		switch {
 		case bad < 0:
 			block = s.reqHeaders("POST", path)
-		case bad >= c15BigKind:
+		case bad == c15BigKind || bad == c15BigKind+1:
 			// Header list larger than the advertised SETTINGS_MAX_HEADER_LIST_SIZE L, kept
 			// inside what the server still parses (a fragment longer than twice the
 			// remaining budget is a connection error): the pseudo-headers and a first
